@@ -217,6 +217,9 @@ pub struct Ctx {
     pub bounds: BTreeMap<String, Value>,
     pub case_horizon: Duration,
     pub budget: Duration,
+    /// binary used for the children of isolated sweeps (default: this executable); C16/C19 point
+    /// it at a build of the same program in another configuration
+    pub worker_exe: Option<std::path::PathBuf>,
 }
 
 struct Watch {
@@ -255,6 +258,7 @@ impl Ctx {
             bounds: BTreeMap::new(),
             case_horizon: Duration::from_secs(if tier == Tier::Quick { 10 } else { 60 }),
             budget: Duration::from_secs(if tier == Tier::Quick { 600 } else { 6 * 3600 }),
+            worker_exe: None,
         }
     }
     pub fn quick(&self) -> bool {
@@ -574,7 +578,7 @@ impl Ctx {
     }
 
     fn run_isolated(&mut self, name: &str, n: u64, stat: &mut SweepStat) -> Vec<Rec> {
-        let exe = std::env::current_exe().expect("current_exe");
+        let exe = self.worker_exe.clone().unwrap_or_else(|| std::env::current_exe().expect("current_exe"));
         let threads = self.threads.max(1);
         let shard = (n / (threads as u64 * 4)).max(1).min(1 << 20);
         let shards: Vec<(u64, u64)> = (0..n).step_by(shard as usize).map(|lo| (lo, (lo + shard).min(n))).collect();
@@ -797,6 +801,7 @@ fn run_child(exe: &std::path::Path, prop: &str, tier: Tier, seed: u64, sweep: &s
         cmd.arg("--verbose");
     }
     cmd.stdout(std::process::Stdio::piped()).stderr(std::process::Stdio::null()).stdin(std::process::Stdio::null());
+    cmd.env("DV_THREADS", "1");
     let mut child = match cmd.spawn() {
         Ok(c) => c,
         Err(e) => return ChildEnd::Died(format!("spawn failed: {}", e), None),
